@@ -506,6 +506,7 @@ Section Build.
     apply ends_rbind; [destruct (m_context_id binary); [exact I|contradiction]|intros bin_ctx _].
     apply ends_rbind; [destruct (is_ancestor_total (bag_tree b) bin_ctx builder 0 W) as [r ->]; exact I|intros anc _].
     destruct anc as [anc|]; [|exact I].
+    destruct (shadowed b builder binary); [exact I|].
     pose proof (np_resolve_build b builder (c_name bctx) binary select
                   (fold_left (fun a x => iset_insert x a) disable (collect_disabled b builder))) as Hnp.
     pose proof (resolver_terminates_loaded t pf bd b builder (c_name bctx) binary select
